@@ -18,14 +18,14 @@ RULE = ("generated SVG documents: group trees of depth <= 4, every group/leaf wi
         "parameters through the reference matrix; circles/ellipses as point sets on the mapped ellipse covering 16 sectors. "
         "Readers: Document.paths, Document.paths_from_group, svg2paths (no transforms by design), SaxDocument. Non-trivial = "
         "some leaf has >= 2 non-commuting non-identity transforms on its chain; distinct by document hash.")
-ASSUMPTIONS = ["transform arguments are separated by single commas/spaces (parse_transform splits on those)",
+ASSUMPTIONS = ["transform arguments are separated by single commas/spaces (parse_transform splits on those); the transforms of a list by white space and/or one comma",
                "tolerance 1e-8 * size * cond(M) (arcs 1e-6); matrices with condition number above 1e3 are not generated",
                "circles/ellipses are compared as point sets (the library starts them at 9 o'clock)"]
 # coverage-guided second engine (atheris), thorough tier only: (shards, libFuzzer runs per shard)
 FUZZ = {'thorough': (16, 8000)}
 CONFIGS = ['scipy']
 BUDGET = {'quick': 4000, 'thorough': 60000}
-REQUIRED = ['leaf:path', 'leaf:line', 'leaf:polyline', 'leaf:polygon', 'leaf:rect', 'leaf:rect_rounded', 'leaf:circle', 'leaf:ellipse',
+REQUIRED = ['tf_list_sep:comma', 'tf_list_sep:wsp', 'leaf:path', 'leaf:line', 'leaf:polyline', 'leaf:polygon', 'leaf:rect', 'leaf:rect_rounded', 'leaf:circle', 'leaf:ellipse',
             'tf:matrix', 'tf:translate', 'tf:scale', 'tf:rotate', 'tf:rotate3', 'tf:skewX', 'tf:skewY', 'tf_args_in_exponent_notation', 'depth>=2', 'reader:Document',
             'reader:svg2paths', 'reader:SaxDocument', 'reader:paths_from_group', 'noncommuting_chain']
 CASE_TIMEOUT = 60
@@ -150,7 +150,7 @@ def tree_s(draw):
             else:
                 out.append(draw(leaf_s(counter[0])))
         return out
-    return {'tree': mk(0), 'sep': draw(st.integers(0, 5)), 'group_pick': draw(st.integers(0, 20))}
+    return {'tree': mk(0), 'sep': draw(st.integers(0, 35)), 'group_pick': draw(st.integers(0, 20))}
 
 
 def strategy(tier, config):
@@ -243,8 +243,10 @@ def check(case, ctx):
     import tempfile, os
     tree = case['tree']
     text = D.to_text(tree, case['sep'])
-    if case['sep'] >= 3 and 'e' in ''.join(D.tf_text(n.get('tf', []), case['sep']) for n in _all_nodes(tree)).replace('translate', '').replace('scale', '').replace('rotate', '').replace('skew', ''):
+    if case['sep'] % 6 >= 3 and 'e' in ''.join(D.tf_text(n.get('tf', []), case['sep']) for n in _all_nodes(tree)).replace('translate', '').replace('scale', '').replace('rotate', '').replace('skew', ''):
         ctx.count('tf_args_in_exponent_notation')
+    if any(len(n.get('tf', [])) >= 2 for n in _all_nodes(tree)):
+        ctx.count('tf_list_sep:%s' % ('comma' if ',' in D.LIST_SEPS[(case['sep'] // 6) % len(D.LIST_SEPS)] else 'wsp'))
     lv = D.leaves(tree)
     if not lv:
         ctx.discard('no leaves')
